@@ -156,6 +156,15 @@ def racy_progress(s, repeats):
     return len(results), stuck
 
 
+def triple_cells(start_id, repeats):
+    """Rename held in the backend, unlink of the rename's target name and a read of the renamed entry queued behind
+    it: after the rename the unlink and the read still exclude each other (see Cell.Triple in harness/cmd/pairs)."""
+    return [{"id": start_id + 1 + i, "triple": True, "cross": False,
+             "a": {"p": "global", "n": 2, "e": 0, "op": "renameat", "k": "", "hold": "RenameAt", "holdidx": 1, "i": 2},
+             "b": {"p": "unlink", "n": 2, "e": 3, "op": "unlinkat", "k": "", "hold": "UnlinkAt", "holdidx": 1, "i": 4}}
+            for i in range(repeats)]
+
+
 def run(prop, tier, seed, rule):
     t0 = time.time()
     verdict = vlib.Verdict(prop)
@@ -198,6 +207,7 @@ def run(prop, tier, seed, rule):
         cells = make_cells(rng, tier == "thorough")
         cells += racy_cells(max(c["id"] for c in cells), 3 if tier == "quick" else 12)
         cells += samefid_cells(max(c["id"] for c in cells))
+        cells += triple_cells(max(c["id"] for c in cells), 4 if tier == "quick" else 16)
         cfile = os.path.join(s, "cells.json")
         json.dump(cells, open(cfile, "w"))
         results, traces = run_pairs(s, cfile, "120ms")
